@@ -94,6 +94,12 @@ def generate(rng, tier):
     for d in (4299, 4301, 5000):
         yield "x\x1b[" + "7" * d + "mhello"
         yield "\x9b1;" + "3" * d + "Hz\x1b[31mr"
+    # terminal output of realistic size: thousands of sequences in ONE string (a coloured listing, a long log)
+    for n in ((1100, 2600) if tier == "thorough" else (1100,)):
+        words = ["ab", "c\n", "", "d e", "ｗ"]
+        yield "".join("\x1b[%sm%s" % (rng.choice(["0", "1", "31", "44", "1;32", "39;49", "", "7"]), words[i % 5])
+                      for i in range(n))
+        yield "".join("%s\x1b[%s" % (words[i % 5], rng.choice(["2K", "10;20H", "A", "0m", "?25l", "1m"])) for i in range(n))
     if tier == "thorough":
         for n in range(0, 6):
             for t in itertools.product(CORE, repeat=n):
